@@ -156,6 +156,10 @@ class Engine(object):
         self.epoch += 1
         ep = self.epoch
         for name in list(FAM_SORTS):
+            if name == 'tyof':
+                # dynamic type tags are written once, at allocation, and never change: the array is kept (entries of objects
+                # allocated in earlier iterations are simply unspecified in it, which is sound)
+                continue
             if any(fnmatch.fnmatchcase(name, p) for p in patterns):
                 st.heap[name] = z3.Const('Hh!%s!%d' % (name, ep), FAM_SORTS[name])
         na = z3.Int(fresh_name('alloc'))
@@ -886,9 +890,12 @@ class Engine(object):
         pre = st.fork()
         pre.env = dict(args)
         ctx0 = SpecCtx(pre, old=pre)
+        n_pre = len(pre.pc)
         for (rn, rexpr) in spec.requires:
             f = self.speceval.formula(rexpr, ctx0)
             st.assume(*ctx0.side)
+            st.assume(*pre.pc[n_pre:])          # well-formedness facts of what the precondition reads
+            n_pre = len(pre.pc)
             o_ = self.oblige('call/%s/requires/%s' % (spec.name.split('.')[-1], rn), st, f, line)
             snap_ = st.fork()
             snap_.env = dict(st.env)
@@ -930,6 +937,7 @@ class Engine(object):
             p.assume(z3.Not(w))
         if not self.feasible(p):
             return
+        normal_possible = True
         res = None
         if spec.returns is not None and spec.returns.kind != 'none':
             res = unpack(spec.returns, z3.Const(fresh_name('ret_' + fi.name), sort_of(spec.returns)))
@@ -949,6 +957,10 @@ class Engine(object):
             p.assume(self.speceval.formula(eexpr, cx))
             p.assume(*cx.side)
         p.env = caller_env
+        # vacuity guard: the callee's postconditions must be satisfiable together with the caller's path (a contract whose
+        # `ensures` describe a change that its `modifies` does not allow would otherwise silently end the path)
+        if normal_possible and not self.feasible(p):
+            raise Unsupported('the contract of %s is inconsistent with the state at its call site (line %s): ensures vs. modifies?' % (spec.name, line))
         if self.cur_spec is not None and self.cur_spec.call_lemmas:
             lp = p.fork()
             lp.env = dict((nm, v) for nm, v in self.entry_state.env.items())
